@@ -218,10 +218,12 @@ template<typename T> struct DatumTraits< Jones<T> >
 template<typename T>
 Jones<T>& Jones<T>::operator *= (const Jones<T>& j)
 {
-  std::complex<T> temp (j00 * j.j00 + j01 * j.j10);
-  j01  = j00 * j.j01 + j01 * j.j11; j00=temp;
-  temp = j10 * j.j00 + j11 * j.j10;
-  j11  = j10 * j.j01 + j11 * j.j11; j10=temp;
+  // form all four elements before assigning any, so that j may be *this
+  std::complex<T> t00 (j00 * j.j00 + j01 * j.j10);
+  std::complex<T> t01 (j00 * j.j01 + j01 * j.j11);
+  std::complex<T> t10 (j10 * j.j00 + j11 * j.j10);
+  std::complex<T> t11 (j10 * j.j01 + j11 * j.j11);
+  j00=t00; j01=t01; j10=t10; j11=t11;
   return *this; 
 }
 
